@@ -26,7 +26,8 @@ ASSUMPTIONS = [
 ]
 REQUIRED_CLASSES = ["crlf", "single-char-field", "wide-vs-narrow", "signed-int", "dot-placeholder", "typed-info",
                     "info-key-absent", "sam-tags", "trailing-comma-list", "interior-comments", "lazy", "eager",
-                    "other-buffer-type-read-first", "other-file-read-first", "same-info-keys-other-number-read-first"]
+                    "other-buffer-type-read-first", "other-file-read-first", "same-info-keys-other-number-read-first",
+                    "row-range-written-before-any-column-was-parsed"]
 BOUNDS = {"quick": "300 files per format variant (21 variants), up to 10 records, widths up to 14",
           "thorough": "3000 files per format variant, up to 40 records, widths up to 40"}
 BUDGET_S = {"quick": 200, "thorough": 1500}
@@ -42,10 +43,15 @@ def reset_state():
     VCFBuffer.vcfentry_cache.clear()
 
 
-def read_rows(data, fmt, lazy):
-    from bionumpy.io.parser import NumpyFileReader
+def read_rows(data, fmt, lazy, write_slice_first=None):
+    from bionumpy.io.parser import NumpyFileReader, NpBufferedWriter
     from bionumpy.io.npdataclassreader import NpDataclassReader
     t = NpDataclassReader(NumpyFileReader(io.BytesIO(data), fmt.buffer), lazy=lazy).read()
+    if write_slice_first and lazy and len(t) >= 2:
+        # a row range of the table is written out before any column of the table has been parsed; the columns still mean what the file says
+        a = write_slice_first[0] % len(t)
+        b = a + 1 + write_slice_first[1] % (len(t) - a)
+        NpBufferedWriter(io.BytesIO(), fmt.buffer).write(t[a:b])
     return formats.table_rows(t)
 
 
@@ -114,6 +120,8 @@ def classify(case):
     cl.append("lazy" if case.get("lazy") else "eager")
     if case.get("via_path"):
         cl.append("via-path")
+    if case.get("write_slice_first") and case.get("lazy") and len(recs) >= 2:
+        cl.append("row-range-written-before-any-column-was-parsed")
     if case.get("prior_fmt"):
         cl.append("other-buffer-type-read-first")
     if case.get("prior"):
@@ -151,7 +159,7 @@ def check(case, stats=None):
             pdiff = formats.first_row_diff(formats.expected_rows(prior), got)
             if pdiff is not None:
                 return [Failure(_bucket_for(prior, pdiff), dict(pdiff, in_prior_file=True))]
-        rows = read_rows_path(data, fmt, lazy) if case.get("via_path") else read_rows(data, fmt, lazy)
+        rows = read_rows_path(data, fmt, lazy) if case.get("via_path") else read_rows(data, fmt, lazy, case.get("write_slice_first"))
     except CountMismatch as e:
         return [Failure(f"C02:count_entries-or-read-disagrees:{case['fmt']}", {"error": str(e)[:400]})]
     except Exception as e:
@@ -185,6 +193,8 @@ def plain_case(draw, fmt, max_records, W):
         case["via_path"] = True
     if draw(st.integers(0, 7)) == 0:
         case["prior"] = draw(S.file_case(fmt, 1, 3, W, canonical=False))
+    if case["lazy"] and not case.get("via_path") and draw(st.integers(0, 3)) == 0:
+        case["write_slice_first"] = [draw(st.integers(1, 9)), draw(st.integers(0, 9))]
     return case
 
 
